@@ -47,6 +47,56 @@ fn load_obs(bytes: &[u8]) -> String {
   }
 }
 
+fn pslug(p: &Box<dyn std::any::Any + Send>) -> String {
+  let m = if let Some(s) = p.downcast_ref::<String>() { s.clone() } else if let Some(s) = p.downcast_ref::<&str>() { s.to_string() } else { "?".to_string() };
+  m.chars().take(40).map(|c| if c.is_ascii_alphanumeric() { c } else { '_' }).collect()
+}
+
+/// everything the loader produced for a byte string, or the error kind (run in a child process)
+pub fn load_summary(bytes: &[u8]) -> String {
+  let b = bytes.to_vec();
+  let r = std::panic::catch_unwind(move || ParsedProgram::from_bytes(&b));
+  match r {
+    Err(p) => format!("panic:{}", pslug(&p)),
+    Ok(Err(e)) => format!("err:{}", e.kind_name()),
+    Ok(Ok(p)) => {
+      let h = &p.header;
+      let hf = format!("{},{},{},{},{},{},{},{},{},{},{},{},{},{},{},{},{},{},{},{},{},{}", hexb(&h.magic), h.version, h.mech_ver, h.flags, h.reg_count, h.instr_count, h.feature_count, h.feature_off,
+        h.types_count, h.types_off, h.const_count, h.const_tbl_off, h.const_tbl_len, h.const_blob_off, h.const_blob_len, h.symbols_len, h.symbols_off, h.instr_off, h.instr_len, h.dict_off, h.dict_len, h.reserved);
+      let feats = p.features.iter().map(|x| x.to_string()).collect::<Vec<_>>().join(",");
+      let types = p.types.entries.iter().map(|t| format!("{}:{}", t.tag.clone() as u16, hexb(&t.bytes))).collect::<Vec<_>>().join(";");
+      let consts = p.const_entries.iter().map(|c| format!("{}:{}:{}:{}:{}:{}:{}", c.type_id, c.enc, c.align, c.flags, c.reserved, c.offset, c.length)).collect::<Vec<_>>().join(";");
+      let mut syms: Vec<String> = p.symbols.iter().map(|(id, r)| format!("{}:{}:{}", id, if p.mutable_symbols.contains(id) { 1 } else { 0 }, r)).collect(); syms.sort();
+      let mut dict: Vec<String> = p.dictionary.iter().map(|(id, n)| format!("{}:{}", id, hexs(n))).collect(); dict.sort();
+      let vals = match std::panic::catch_unwind(std::panic::AssertUnwindSafe(|| p.decode_const_entries())) {
+        Ok(Ok(vs)) => format!("n{}", vs.len()), Ok(Err(e)) => format!("err:{}", e.kind_name()), Err(pp) => format!("panic:{}", pslug(&pp)) };
+      format!("ok|H={}|F={}|T={}|C={}|B={}|S={}|I={}|D={}|V={}", hf, feats, types, consts, hexb(&p.const_blob), syms.join(";"), instr_text(&p.instrs), dict.join(";"), vals)
+    }
+  }
+}
+
+/// run the loader on `bytes` in a child process with an address-space limit and a time budget
+pub fn load_child(bytes: &[u8]) -> String {
+  use std::io::Write;
+  use std::process::{Command, Stdio};
+  let exe = std::env::current_exe().unwrap();
+  let mut child = match Command::new("sh").arg("-c").arg("ulimit -v 3000000; exec \"$0\" loadone").arg(&exe)
+    .stdin(Stdio::piped()).stdout(Stdio::piped()).stderr(Stdio::null()).spawn() { Ok(c) => c, Err(_) => return "harness:spawn".into() };
+  { let mut si = child.stdin.take().unwrap(); let _ = si.write_all(hexb(bytes).as_bytes()); let _ = si.write_all(b"\n"); }
+  let t0 = std::time::Instant::now();
+  loop {
+    match child.try_wait() {
+      Ok(Some(st)) => {
+        let mut out = String::new();
+        if let Some(mut so) = child.stdout.take() { use std::io::Read; let _ = so.read_to_string(&mut out); }
+        return if st.success() { out.trim().to_string() } else { "abort".to_string() };
+      }
+      Ok(None) => { if t0.elapsed().as_secs() > 20 { let _ = child.kill(); return "hang".into(); } std::thread::sleep(std::time::Duration::from_millis(2)); }
+      Err(_) => return "harness:wait".into(),
+    }
+  }
+}
+
 pub fn mutate(file: &[u8], spec: &str) -> Vec<u8> {
   let p: Vec<&str> = spec.split(':').collect();
   let mut f = file.to_vec();
@@ -130,6 +180,7 @@ pub fn exec(case: &str) -> String {
         Ok(Ok(out)) => if out == file { "same".into() } else { "diff".into() },
       }
     }
+    "load" => load_child(&unhex(f[1])),
     "instrs" => {
       // build a loadable file around the given instruction list, reload it, report the decoded list
       let base = emit("x := 1 + 2").unwrap();
